@@ -286,6 +286,10 @@ def normArr (a : Arr Rat) (ord : Option Ord) (axis : Option (List Int)) (keepdim
     let row := normAxis ndim ax0
     let col := normAxis ndim ax1
     if row = col then .err .ParameterError else
+    -- `axis_in_bounds(normalize_axis(axis[0]))?; axis_in_bounds(normalize_axis(axis[1]))?` (repair e1ca2b8,
+    -- `fixes/C09-norm-two-axes-in-bounds.diff`; before it an axis below `-ndim` wrapped round to the last axis)
+    if row < 0 ∨ row ≥ ndim then .err .AxisOutOfBounds else
+    if col < 0 ∨ col ≥ ndim then .err .AxisOutOfBounds else
     let result : Res (Arr Rat) :=
       match ord.getD .fro with
       | .int v =>
